@@ -284,6 +284,16 @@ def run(ctx):
 
 def replay(ctx):
     d = json.load(open(ctx.replay))
+    if 'real_mixed' in d['case']:
+        c = d['case']['real_mixed']
+        got = real_history((c['modes'], c['timeout'], c['encoding']))
+        want = real_history(('SSS', c['timeout'], c['encoding']))
+        print('mixed history %s: %s' % (c['modes'], got))
+        print('all-blocking history: %s' % want)
+        if got != want:
+            print('VIOLATION property=C14 replay=%s' % ctx.replay)
+            return 1
+        return 0
     m = d['case']['meta']
     mapping = P.UNI if m['mode'] == 'unicode' else P.ASCII
     arr = [(t, None if x is None else x.encode('latin-1')) for t, x in m['arrivals']]
